@@ -229,4 +229,165 @@ theorem subset_of_nodup_length_le : ∀ (l1 l2 : List Nat), l1.Nodup → (∀ x 
     · have : x ∈ l2.erase a := (List.mem_erase_of_ne e).2 hx
       exact List.mem_cons_of_mem _ (subset_of_nodup_length_le t (l2.erase a) hnd'.2 hsub' hlen' x this)
 
+
+/-! ## the sets `sendTransaction` collects -/
+
+/-- invariant of the response handler with the guard in place -/
+structure CollInv (s : Collect) : Prop where
+  sub : ∀ x ∈ s.rejections, x.1 ∈ s.replies
+  closed : ∀ x ∈ s.rejections, x.1 ∈ s.closed
+  nodup : (s.rejections.map (·.1)).Nodup
+
+theorem collInv_init : CollInv {} := ⟨(by intro x hx; cases hx), (by intro x hx; cases hx), (by simp)⟩
+
+theorem collInv_step (s : Collect) (m : PeerMsg) (h : CollInv s) : CollInv (collectStep true s m) := by
+  cases m with
+  | getdata p =>
+    simp only [collectStep]
+    split
+    · exact h
+    · split
+      · exact h
+      · exact ⟨fun x hx => List.mem_append_left _ (h.sub x hx), h.closed, h.nodup⟩
+  | timeout p =>
+    simp only [collectStep]
+    exact ⟨h.sub, fun x hx => List.mem_cons_of_mem _ (h.closed x hx), h.nodup⟩
+  | reject p c =>
+    simp only [collectStep]
+    split
+    · exact h
+    · rename_i hcl
+      split
+      · exact h
+      · rename_i hg
+        have hrep : p ∈ s.replies := by simpa using hg
+        have hncl : p ∉ s.closed := by simpa using hcl
+        have hnot : p ∉ s.rejections.map (·.1) := by
+          intro hm
+          obtain ⟨y, hy, hyp⟩ := List.mem_map.mp hm
+          exact hncl (hyp ▸ h.closed y hy)
+        have hfil : s.rejections.filter (fun x => x.1 != p) = s.rejections := by
+          apply List.filter_eq_self.mpr
+          intro a ha
+          have : a.1 ≠ p := by
+            intro e; exact hnot (List.mem_map.mpr ⟨a, ha, e⟩)
+          simp [this]
+        simp only [hfil]
+        refine ⟨?_, ?_, ?_⟩
+        · intro x hx
+          rcases List.mem_append.mp hx with hx | hx
+          · exact h.sub x hx
+          · simp only [List.mem_singleton] at hx; rw [hx]; exact hrep
+        · intro x hx
+          rcases List.mem_append.mp hx with hx | hx
+          · exact List.mem_cons_of_mem _ (h.closed x hx)
+          · simp only [List.mem_singleton] at hx; rw [hx]; exact List.mem_cons_self ..
+        · simp only [List.map_append, List.map_cons, List.map_nil]
+          apply List.nodup_append.mpr
+          refine ⟨h.nodup, by simp, ?_⟩
+          intro a ha b hb
+          simp only [List.mem_singleton] at hb
+          intro e
+          exact hnot (by rw [← hb, ← e]; exact ha)
+
+theorem collInv_from (msgs : List PeerMsg) (s : Collect) (h : CollInv s) : CollInv (collectFrom true s msgs) := by
+  induction msgs generalizing s with
+  | nil => exact h
+  | cons m ms ih => exact ih _ (collInv_step s m h)
+
+/-- where the collected sets come from: a peer is in `replies` only through its own getdata,
+in `rejections` only through its own reject (whatever the guard) -/
+theorem collect_origin (guard : Bool) (msgs : List PeerMsg) (s : Collect) :
+    (∀ p ∈ (collectFrom guard s msgs).replies, p ∈ s.replies ∨ PeerMsg.getdata p ∈ msgs) ∧
+    (∀ x ∈ (collectFrom guard s msgs).rejections, x ∈ s.rejections ∨ PeerMsg.reject x.1 x.2 ∈ msgs) := by
+  induction msgs generalizing s with
+  | nil => exact ⟨fun p hp => Or.inl hp, fun x hx => Or.inl hx⟩
+  | cons m ms ih =>
+    have ih' := ih (collectStep guard s m)
+    simp only [collectFrom, List.foldl_cons] at ih' ⊢
+    constructor
+    · intro p hp
+      rcases ih'.1 p hp with h | h
+      · cases m with
+        | getdata q =>
+          simp only [collectStep] at h
+          split at h
+          · exact Or.inl h
+          · split at h
+            · exact Or.inl h
+            · rcases List.mem_append.mp h with h | h
+              · exact Or.inl h
+              · simp only [List.mem_singleton] at h; rw [h]; exact Or.inr (List.mem_cons_self ..)
+        | reject q c =>
+          simp only [collectStep] at h
+          split at h
+          · exact Or.inl h
+          · split at h <;> exact Or.inl h
+        | timeout q => exact Or.inl h
+      · exact Or.inr (List.mem_cons_of_mem _ h)
+    · intro x hx
+      rcases ih'.2 x hx with h | h
+      · cases m with
+        | getdata q =>
+          simp only [collectStep] at h
+          split at h
+          · exact Or.inl h
+          · split at h <;> exact Or.inl h
+        | reject q c =>
+          simp only [collectStep] at h
+          split at h
+          · exact Or.inl h
+          · split at h
+            · exact Or.inl h
+            · rcases List.mem_append.mp h with h | h
+              · exact Or.inl (List.mem_filter.mp h).1
+              · simp only [List.mem_singleton] at h; rw [h]; exact Or.inr (List.mem_cons_self ..)
+        | timeout q => exact Or.inl h
+      · exact Or.inr (List.mem_cons_of_mem _ h)
+
+/-! ## the verdict on sets with "every rejecter had replied" -/
+
+/-- every peer that replied (asked for the tx with getdata) also rejected it -/
+def AllRepliersRejected (q : Replies) : Prop := ∀ p ∈ q.replies, p ∈ q.rejections.map (·.1)
+
+/-- the share of the replying peers that called the tx invalid reaches `num/den` -/
+def InvalidShareReached (num den : Nat) (q : Replies) : Prop :=
+  (q.rejections.filter (fun x => decide (x.2 = Code.invalid ∧ x.1 ∈ q.replies))).length * den ≥ num * q.replies.length
+
+/-- every rejection comes from a peer that had requested the transaction -/
+def RejectersReplied (q : Replies) : Prop := ∀ x ∈ q.rejections, x.1 ∈ q.replies
+
+theorem verdict_sets (op : String) (hop : op = ">=" ∨ op = ">") (num den : Nat) (iter : List Code) (q : Replies)
+    (hsub : RejectersReplied q) (hnd : (q.rejections.map (·.1)).Nodup) (c : Code)
+    (hv : verdict op num den iter q = some c) :
+    AllRepliersRejected q ∨ InvalidShareReached num den q := by
+  simp only [verdict] at hv
+  by_cases h0 : q.replies.length = 0
+  · simp [h0] at hv
+  · simp only [h0, ↓reduceIte] at hv
+    by_cases h1 : q.replies.length = q.rejections.length
+    · left
+      intro p hp
+      refine subset_of_nodup_length_le (q.rejections.map (·.1)) q.replies hnd ?_ (by simp [h1]) p hp
+      intro x hx
+      obtain ⟨y, hy, rfl⟩ := List.mem_map.mp hx
+      exact hsub y hy
+    · simp only [h1, ↓reduceIte] at hv
+      right
+      by_cases h2 : q.rejections.length > 0 ∧
+          cmpOp op (countCode .invalid q.rejections * den) (num * q.replies.length) = true
+      · have hfil : (q.rejections.filter (fun x => decide (x.2 = Code.invalid ∧ x.1 ∈ q.replies))) =
+            q.rejections.filter (fun x => decide (x.2 = Code.invalid)) := by
+          apply List.filter_congr
+          intro x hx
+          have := hsub x hx
+          simp [this]
+        simp only [InvalidShareReached, hfil]
+        have hc := h2.2
+        simp only [countCode] at hc
+        rcases hop with e | e
+        · rw [e] at hc; simp [cmpOp] at hc; exact hc
+        · rw [e] at hc; simp [cmpOp] at hc; exact Nat.le_of_lt hc
+      · simp [h2] at hv
+
 end Neutrino.PushTx
